@@ -34,7 +34,7 @@ var c19Seqs = []string{
 
 var c19Bodies = []string{
 	`abc`, `a b`, `say \"hi\"`, `back\\slash`, `\C-a\C-k`, `\e[A`, `é中`, `tab\there`, `line\nfeed`, `cr\rhere`, `it's`, `#hash`, `colon: x`,
-	`\M-x`, `\x80\xff`, `\C-?`, `\C-@x`, ` lead`, `trail `, `a\"`, `\\`, `C-a`, `\\C-a`, `$x`,
+	`\M-x`, `\x80\xff`, `\C-?`, `\C-@x`, ` lead`, `trail `, `a\"`, `\\`, `C-a`, `\\C-a`, `$x`, `yank`,
 }
 
 type c19Var struct{ name, value string }
@@ -318,6 +318,8 @@ func c19DumpCases() []c19DumpCase {
 			out = append(out, c19DumpCase{Name: tag + "/bind " + s, RC: mode + "\"" + s + "\": forward-char\n", Which: "functions", Vi: vi})
 			out = append(out, c19DumpCase{Name: tag + "/macro-on " + s, RC: mode + "\"" + s + "\": \"xyz\"\n", Which: "macros", Vi: vi})
 		}
+		// a macro whose text is the name of a command is still a macro: the functions dump must not list it
+		out = append(out, c19DumpCase{Name: tag + "/functions dump with a macro whose text is a command name", RC: mode + "\"\\C-xm\": \"yank\"\n", Which: "functions", Vi: vi})
 		for _, b := range c19Bodies {
 			out = append(out, c19DumpCase{Name: tag + "/macro-body " + b, RC: mode + "\"\\C-xm\": \"" + b + "\"\n", Which: "macros", Vi: vi})
 		}
